@@ -3,6 +3,7 @@
    are space-separated decimals.  The only logic here is I/O and number
    conversion; everything else is the extracted Coq code. *)
 open Bornomodel
+type string = Stdlib.String.t
 
 (* ---- conversions between OCaml ints / decimal strings and Coq numbers ---- *)
 let rec pos_of_int (i : int) : positive =
@@ -30,101 +31,10 @@ let cps_of_field (s : string) : n list =
   if s = "" then [] else List.map (fun x -> n_of_int (int_of_string x)) (String.split_on_char ' ' s)
 let buf_cps ?(sep=",") (l : n list) : string = String.concat sep (List.map (fun c -> string_of_int (int_of_n c)) l)
 
-(* ---- names of constructors ---- *)
-let lexdiag_name = function
-  | LexUnexpectedChar -> "LexUnexpectedChar" | LexBadNumber -> "LexBadNumber"
-  | LexUnterminatedString -> "LexUnterminatedString" | LexUnterminatedComment -> "LexUnterminatedComment"
-let pkind_name = function
-  | PExpectVarName -> "PExpectVarName" | PReservedVar -> "PReservedVar" | PSemiBeforeNewline -> "PSemiBeforeNewline"
-  | PSemiAfterVar -> "PSemiAfterVar" | PSemiAfterBreak -> "PSemiAfterBreak" | PSemiAfterContinue -> "PSemiAfterContinue"
-  | PLParenAfterFor -> "PLParenAfterFor" | PSemiAfterLoopCond -> "PSemiAfterLoopCond" | PRParenAfterFor -> "PRParenAfterFor"
-  | PLParenAfterWhile -> "PLParenAfterWhile" | PRParenAfterCond -> "PRParenAfterCond" | PLParenAfterIf -> "PLParenAfterIf"
-  | PRParenAfterIfCond -> "PRParenAfterIfCond" | PSemiAfterValue -> "PSemiAfterValue" | PSemiAfterReturn -> "PSemiAfterReturn"
-  | PExpectFunName -> "PExpectFunName" | PReservedFun -> "PReservedFun" | PLParenAfterFunName -> "PLParenAfterFunName"
-  | PTooManyParams -> "PTooManyParams" | PExpectParam -> "PExpectParam" | PRParenAfterParams -> "PRParenAfterParams"
-  | PLBraceBeforeBody -> "PLBraceBeforeBody" | PRBraceAfterBlock -> "PRBraceAfterBlock" | PInvalidAssign -> "PInvalidAssign"
-  | PRBracketAfterIndex -> "PRBracketAfterIndex" | PPropAfterDot -> "PPropAfterDot" | PRParenAfterArgs -> "PRParenAfterArgs"
-  | PRParenAfterExpr -> "PRParenAfterExpr" | PExpectExpr -> "PExpectExpr" | PPropName -> "PPropName"
-  | PColonAfterProp -> "PColonAfterProp" | PRBraceAfterObject -> "PRBraceAfterObject" | PRBracketAfterElems -> "PRBracketAfterElems"
-let nfail_name = function
-  | NfArgCount -> "NfArgCount" | NfNotArray -> "NfNotArray" | NfNotObject -> "NfNotObject" | NfIndexInt -> "NfIndexInt"
-  | NfIndexBounds -> "NfIndexBounds" | NfKeyType -> "NfKeyType" | NfKeyMissing -> "NfKeyMissing" | NfNotNumber -> "NfNotNumber"
-  | NfEmpty -> "NfEmpty" | NfInputArgs -> "NfInputArgs" | NfInputType -> "NfInputType" | NfInputEOF -> "NfInputEOF"
-let rterr_name = function
-  | RLeftNumber -> "RLeftNumber" | RRightNumber -> "RRightNumber" | RLeftInteger -> "RLeftInteger"
-  | RRightInteger -> "RRightInteger" | RDivZero -> "RDivZero" | ROperandsNumStr -> "ROperandsNumStr"
-  | RRightStrNum -> "RRightStrNum" | RNegShift -> "RNegShift" | RUnaryNumber -> "RUnaryNumber"
-  | RUnaryInteger -> "RUnaryInteger" | RUndefinedVar -> "RUndefinedVar" | RUndefinedAssign -> "RUndefinedAssign"
-  | RRedeclare -> "RRedeclare" | RNotObjectAssign -> "RNotObjectAssign" | RNotObjectAccess -> "RNotObjectAccess"
-  | RNoProperty -> "RNoProperty" | RNotArrayAccess -> "RNotArrayAccess" | RNotArrayAssign -> "RNotArrayAssign"
-  | RIndexInteger -> "RIndexInteger" | RIndexBounds -> "RIndexBounds" | RNotCallable -> "RNotCallable"
-  | RArity -> "RArity" | RCallFailed w -> "RCallFailed." ^ nfail_name w
-  | RStrayBreak -> "RStrayBreak" | RStrayContinue -> "RStrayContinue" | RStrayReturn -> "RStrayReturn"
-
-(* ---- rendering in godump's formats ---- *)
-let cps_angle (l : n list) : string = "<" ^ buf_cps ~sep:"." l ^ ">"
-let lit_tok = function
-  | LNone -> "nil"
-  | LNum f -> "num:" ^ string_of_z (f_to_bits f)
-  | LStr s -> "str:" ^ cps_angle s
-let tok_str (t : token) : string =
-  Printf.sprintf "%d %s %s %d" (int_of_n (tkind_code t.tk)) (cps_angle t.tlex) (lit_tok t.tlit) (int_of_n t.tline)
-let lit_ast = function
-  | LitNil -> "nil" | LitBool true -> "true" | LitBool false -> "false"
-  | LitNum f -> "num:" ^ string_of_z (f_to_bits f)
-  | LitStr s -> "str:" ^ cps_angle s
-let ln x = string_of_int (int_of_n x)
-let code k = string_of_int (int_of_n (tkind_code k))
-let rec sx (e : expr) : string =
-  match e with
-  | ELit (v, l) -> Printf.sprintf "(lit %s %s)" (lit_ast v) (ln l)
-  | EId (x, l) -> Printf.sprintf "(id %s %s)" (cps_angle x) (ln l)
-  | EGroup (e, l) -> Printf.sprintf "(group %s %s)" (sx e) (ln l)
-  | EUnary (op, e, l) -> Printf.sprintf "(unary %s %s %s)" (code op) (sx e) (ln l)
-  | EBinary (op, a, b, l) -> Printf.sprintf "(binary %s %s %s %s)" (code op) (sx a) (sx b) (ln l)
-  | ELogical (op, a, b) -> Printf.sprintf "(logical %s %s %s)" (code op) (sx a) (sx b)
-  | EAssign (x, _, v, l) -> Printf.sprintf "(assign %s %s %s)" (cps_angle x) (sx v) (ln l)
-  | EArrAssign (a, i, v, l) -> Printf.sprintf "(aassign %s %s %s %s)" (sx a) (sx i) (sx v) (ln l)
-  | EPropAssign (o, p, v, l) -> Printf.sprintf "(passign %s %s %s %s)" (sx o) (cps_angle p) (sx v) (ln l)
-  | ECall (c, pl, args) -> Printf.sprintf "(call %s %s %s)" (sx c) (ln pl) (sxlist args)
-  | EIndex (a, i, l) -> Printf.sprintf "(index %s %s %s)" (sx a) (sx i) (ln l)
-  | EProp (o, p, l) -> Printf.sprintf "(prop %s %s %s)" (sx o) (cps_angle p) (ln l)
-  | EArray es -> Printf.sprintf "(array %s)" (sxlist es)
-  | EObject ps ->
-      Printf.sprintf "(object [%s])"
-        (String.concat " " (List.map (fun (k, v) -> Printf.sprintf "(%s %s)" (cps_angle k) (sx v)) ps))
-and sxlist es = "[" ^ String.concat " " (List.map sx es) ^ "]"
-let opt f = function None -> "none" | Some x -> f x
-let vdecl_sx (((x, init), l) : vdecl) = Printf.sprintf "(var %s %s %s)" (cps_angle x) (opt sx init) (ln l)
-let rec ssx (s : stmt) : string =
-  match s with
-  | SExpr e -> Printf.sprintf "(expr %s)" (sx e)
-  | SPrint e -> Printf.sprintf "(print %s)" (sx e)
-  | SVar d -> vdecl_sx d
-  | SVarList ds -> "(varlist [" ^ String.concat " " (List.map vdecl_sx ds) ^ "])"
-  | SBlock ss -> "(block " ^ ssxlist ss ^ ")"
-  | SIf (c, t, e) -> Printf.sprintf "(if %s %s %s)" (sx c) (ssx t) (opt ssx e)
-  | SWhile (c, b) -> Printf.sprintf "(while %s %s)" (sx c) (ssx b)
-  | SFor (i, c, inc, b) -> Printf.sprintf "(for %s %s %s %s)" (opt ssx i) (sx c) (opt sx inc) (ssx b)
-  | SBreak l -> Printf.sprintf "(break %s)" (ln l)
-  | SContinue l -> Printf.sprintf "(continue %s)" (ln l)
-  | SReturn (l, v) -> Printf.sprintf "(return %s %s)" (ln l) (opt sx v)
-  | SFun (x, ps, body) ->
-      Printf.sprintf "(fun %s [%s] %s)" (cps_angle x) (String.concat " " (List.map cps_angle ps)) (ssxlist body)
-and ssxlist ss = "[" ^ String.concat " " (List.map ssx ss) ^ "]"
-
-let event_str = function
-  | EvPrint t -> "P:" ^ buf_cps t
-  | EvEcho t -> "E:" ^ buf_cps t
-  | EvPrompt t -> "Q:" ^ buf_cps t
-  | EvText t -> "T:" ^ buf_cps t
-let where_str = function None -> "end" | Some l -> "at=" ^ buf_cps l
-let item_str = function
-  | DLex (l, d) -> Printf.sprintf "L:%s:%s" (ln l) (lexdiag_name d)
-  | DParse d -> Printf.sprintf "S:%s:%s:%s" (ln d.pd_line) (pkind_name d.pd_kind) (where_str d.pd_where)
-  | DRuntime (e, l) -> Printf.sprintf "R:%s:%s" (ln l) (rterr_name e)
-  | DFileError -> "F"
-  | DGoCrash -> "C"
+(* all rendering of observables is done by the extracted Coq functions of Model/Render.v *)
+let str_of_cps (l : n list) : string =
+  let b = Buffer.create 256 in
+  List.iter (fun c -> Buffer.add_char b (Char.chr (int_of_n c land 255))) l; Buffer.contents b
 
 (* ---- oracles ---- *)
 let goref_path = ref ""
@@ -151,15 +61,7 @@ let fuel = ref 200000
 let seed = ref 0
 let clock_bits = ref "4745084416362086400" (* some fixed double *)
 
-let outcome_str (o : outcome) : string =
-  match o with
-  | PExit r ->
-      Printf.sprintf "%d\t%s\t%s" (int_of_n r.p_status)
-        (String.concat " " (List.map event_str r.p_stdout))
-        (String.concat " " (List.map item_str r.p_stderr))
-  | PNoResult why ->
-      let w = match why with RFuel -> "fuel" | RStuck -> "stuck" | RParseFuel -> "parsefuel" | _ -> "other" in
-      Printf.sprintf "noresult:%s\t\t" w
+let outcome_s (o : outcome) : string = str_of_cps (outcome_str o)
 
 let () =
   let args = Array.to_list Sys.argv in
@@ -189,24 +91,15 @@ let () =
       (try
       (match fld 0 with
        | "tokens" ->
-           let lx = lex (cps_of_field (fld 2)) in
-           Buffer.add_string out (Printf.sprintf "%s\t%s\t%s\t%s\n" id
-             (String.concat "\x1f" (List.map tok_str lx.lx_tokens)) (ln lx.lx_eof_line)
-             (String.concat " " (List.map (fun (l, d) -> Printf.sprintf "L:%s:%s" (ln l) (lexdiag_name d)) lx.lx_diags)))
+           Buffer.add_string out (Printf.sprintf "%s\t%s\n" id (str_of_cps (tokens_str (cps_of_field (fld 2)))))
        | "parse" ->
-           let lx = lex (cps_of_field (fld 2)) in
-           let pr = parse lx.lx_tokens lx.lx_eof_line in
-           let items = List.map (fun (l, d) -> DLex (l, d)) lx.lx_diags @ List.map (fun d -> DParse d) pr.pr_diags in
-           Buffer.add_string out (Printf.sprintf "%s\t%s\t%s\t%s\n" id
-             (match pr.pr_prog with Some ss -> ssxlist ss | None -> "-")
-             (String.concat " " (List.map item_str items))
-             (if pr.pr_fuel_out then "parsefuel" else ""))
+           Buffer.add_string out (Printf.sprintf "%s\t%s\n" id (str_of_cps (parse_str (cps_of_field (fld 2)))))
        | "file" ->
            let o = run_file libm clock sched nfuel (cps_of_field (fld 2)) (cps_of_field (fld 3)) in
-           Buffer.add_string out (Printf.sprintf "%s\t%s\n" id (outcome_str o))
+           Buffer.add_string out (Printf.sprintf "%s\t%s\n" id (outcome_s o))
        | "repl" ->
            let o = repl libm clock sched nfuel (cps_of_field (fld 2)) in
-           Buffer.add_string out (Printf.sprintf "%s\t%s\n" id (outcome_str o))
+           Buffer.add_string out (Printf.sprintf "%s\t%s\n" id (outcome_s o))
        | "cli" ->
            (* fields: args (each separated by '|'), filespec ("err" or "ok:<cps>"), stdin *)
            let argv = if fld 2 = "-" then [] else List.map cps_of_field (String.split_on_char '|' (fld 2)) in
@@ -216,7 +109,7 @@ let () =
                FileOk (cps_of_field (String.sub spec 3 (String.length spec - 3)))
              else FileErr in
            let o = main libm clock sched nfuel argv fsys (cps_of_field (fld 4)) in
-           Buffer.add_string out (Printf.sprintf "%s\t%s\n" id (outcome_str o))
+           Buffer.add_string out (Printf.sprintf "%s\t%s\n" id (outcome_s o))
        | "textnum" ->
            let f = f_of_bits (z_of_string (fld 2)) in
            Buffer.add_string out (Printf.sprintf "%s\t%s\n" id
